@@ -244,6 +244,15 @@ pub fn run(o: &Opts) -> Report {
                     judge_tokens(&mut rep, &t4, "last-content-ends-in-dash-nl", wf);
                 }
             }
+            // mixed line ends: some boundaries / inner lines CRLF, the others LF (a CRLF pasted into an LF message and the reverse)
+            if n % 4 == 2 && wf {
+                let mut t6 = String::new();
+                for c in &msg.chunks {
+                    let content: String = c.content.split('\n').collect::<Vec<_>>().iter().enumerate().map(|(k, l)| if k == 0 { l.to_string() } else { format!("{}{l}", if rng.below(2) == 0 { "\r\n" } else { "\n" }) }).collect();
+                    t6.push_str(&format!(":{}:{}{}", c.tag, content, if rng.below(2) == 0 { "\r\n" } else { "\n" }));
+                }
+                judge_tokens_with(&mut rep, &t6, "mixed-eol", true, Some(&msg.chunks));
+            }
             // numbered tags (`:50#1:`, `:50#2:` — the library documents that it keeps them whole) at a non-first position
             if n % 5 == 1 && msg.chunks.len() >= 2 && wf {
                 let mut c5 = msg.chunks.clone();
